@@ -332,7 +332,7 @@ func TestResultsNotShared(t *testing.T) {
 
 func TestLegacy(t *testing.T) {
 	pbt.Run(t, pbt.Sub[Case]{
-		Name: subName, Quick: 2400, Thorough: 24000,
+		Name: subName, Quick: 4800, Thorough: 36000,
 		Gen:      genCase,
 		Check:    check,
 		Enum:     func(tier string, yield func(Case)) { vectorCases(yield) },
